@@ -1,6 +1,7 @@
 """C16 Design-variable nodes receive in-range values exactly when they exist - clamping clauses."""
 import ast
 
+from ..rules.match import FnText
 from ..model import AnalysisError, norm
 from ..cfg import build_cfg, node_exprs
 from ..flow import forward_taint
@@ -66,7 +67,7 @@ def clamp_regions(ctx, rule='A16'):
                        f'fraction {frac}', nontrivial=(v < lo or v > hi))
     # the constructor establishes the orderings the regions rely on
     init = ctx.fn(f'{NODES}:DesignVariableNode.__init__')
-    txt = ' '.join(norm(s) for s in init.body)
+    txt = FnText(ctx, init)
     ok1 = 'bounds[0] >= bounds[1]' in txt or 'bounds[1] <= bounds[0]' in txt
     ok2 = 'len(options) < 1' in txt or 'len(options) == 0' in txt or 'not options' in txt
     ctx.ob(rule, fkey(init, rule, 'lower<upper'), ok1, init.where,
